@@ -278,8 +278,9 @@ def bigbuf_query(propset, root, kind, L, in_object_name_len=1, timeout=3000, con
     return q
 
 
-def biglen_query(root, timeout=900):
-    return Query("biglen.%s" % ("obj" if root == 1 else "arr"), "h_biglen.c", defines={"ROOT": root}, sources=("parser",),
+def biglen_query(root, timeout=900, window=False):
+    return Query("biglen.%s%s" % ("obj" if root == 1 else "arr", ".window" if window else ""), "h_biglen.c",
+                 defines=dict({"ROOT": root}, **({"WINDOW": 1} if window else {})), sources=("parser",),
                  unwindset={"_advance_parsing.0": 4, "_parse_integer.0": 9, "memcmp.0": 4}, unwind=20, checks="mem", timeout=timeout,
                  mem_gb=2, tags={"family": "H-TOKEN", "what": "one next over a symbolic token header, claimed buffer size symbolic up to 2^33: "
                                  "every 1/2/4-byte length 0..INT32_MAX, every integer width, doubles"}, group="h_biglen")
@@ -533,8 +534,8 @@ def plan_C03(tier):
         qs.append(shape_script_query(3, node, shapes.full_script(node), "offset", root))
     # getter neutrality from an arbitrary state
     qs.append(step_query(3, 15, 6, 2, checks="func"))
-    # every length width / integer width with a symbolic claimed buffer size (lengths up to INT32_MAX)
-    qs += [biglen_query(1), biglen_query(2)]
+    # every length width / integer width with a symbolic claimed buffer size (lengths up to INT32_MAX), token at any offset
+    qs += [biglen_query(1), biglen_query(2), biglen_query(2, window=True)]
     # arbitrary valid documents
     for (s, n, root) in ([(["GA", "N", "N"], 6, 2), (["GO", "N", "N"], 6, 1)] if tier == "quick" else
                          [(["GA", "N", "N"], 8, 2), (["GO", "N", "N"], 8, 1), (["GA", "N", "GA", "N"], 7, 2), (["GO", "N", "GO", "N"], 8, 1),
@@ -1533,6 +1534,7 @@ def plan_C01_full(tier):
         qs.append(q)
     qs.append(leaf_query("check_boundary"))
     qs += [biglen_query(1), biglen_query(2)]      # every length up to INT32_MAX, claimed size symbolic: spans stay inside, no payload read
+    qs += [biglen_query(1, window=True), biglen_query(2, window=True)]    # ... with the token at ANY offset up to 2^32
     # reset / verify exactly AT the depth limit (depth == max_depth), state array of exactly max_depth entries
     for D in (1, 2, 3):
         node = Node("T")
@@ -1587,7 +1589,7 @@ def plan_C02_full(tier):
         q.tags.update({"family": "H-TOKEN", "what": "length field of %d symbolic bytes + 4 symbolic trailing bytes" % w})
         qs.append(q)
     qs.append(leaf_query("parse_integer"))
-    qs += [biglen_query(1), biglen_query(2)]
+    qs += [biglen_query(1), biglen_query(2), biglen_query(1, window=True)]
     # truncated tokens: type byte concrete, k payload bytes (k < full width) symbolic, then the END: must be rejected
     for tb, width, label in ((0x46, 8, "double"), (0x13, 8, "int64"), (0x12, 4, "int32"), (0x11, 2, "int16"), (0x16, 4, "strlen32"), (0x15, 2, "strlen16"),
                              (0x1a, 4, "byteslen32"), (0x19, 2, "byteslen16"), (0x17, 8, "reserved17"), (0x1b, 8, "reserved1b")):
